@@ -54,6 +54,9 @@ def run(ctx):
 
     fb = find_effect_calls(o.effects, "meth:frombytes")
     wr = find_effect_calls(o.effects, "meth:write_hex_file")
+    if len(fb) == 0 or len(wr) == 0:
+        generic.absent(ctx, "update-candidate record", top, "frombytes(record, address) and write_hex_file(storage_output_file)",
+                       "the storage hex file is not produced")
     if len(fb) != 1 or len(wr) != 1:
         raise AnalysisError(f"{fq}: storage hex effects not recognised ({len(fb)} frombytes, {len(wr)} write_hex_file)")
     fbt, wrt = fb[0], wr[0]
@@ -140,6 +143,9 @@ def run(ctx):
     R.rule("C16-D2a partition image", 2, "bin2hex(input_file, dfu_partition_output_file, dfu_partition_address); failure raises")
     b2h = [e.args[0] for e in all_effects(o.effects) if isinstance(e, App) and e.op == "eff:call" and isinstance(e.args[0], App)
            and e.args[0].op == "call:intelhex.bin2hex"]
+    if len(b2h) == 0:
+        generic.absent(ctx, "DFU partition image", top, "bin2hex(input_file, dfu_partition_output_file, dfu_partition_address)",
+                       "the DFU partition hex file is not produced")
     if len(b2h) != 1:
         raise AnalysisError(f"{fq}: bin2hex call not recognised")
     b = b2h[0]
